@@ -51,6 +51,9 @@ BUFFERS = {
 HISTORY = ["first entry", "second one", "multi\nline entry", "second one", "foo bar baz"]
 
 CANDS = [{"v": "foobar", "desc": "a"}, {"v": "foobaz", "desc": "b"}, {"v": "food"}, {"v": "qux", "desc": "a"}]
+# candidates displayed differently from what they insert (paths listed by their base name, ...)
+CANDS_DISP = [{"v": "foobar", "disp": "r"}, {"v": "foobaz", "disp": "z", "desc": "b"}, {"v": "foo/usr/bin/ls", "disp": "ls"}, {"v": "héllo", "disp": "h"},
+              {"v": "ab", "disp": "a very long display string for a short value", "desc": "d"}, {"v": "a b", "disp": ""}]
 
 BOOL_VARS = ["autocomplete", "autopairs", "blink-matching-paren", "history-autosuggest", "multiline-column",
              "show-mode-in-prompt", "prompt-transient", "usage-hint-always", "completion-ignore-case",
@@ -58,13 +61,36 @@ BOOL_VARS = ["autocomplete", "autopairs", "blink-matching-paren", "history-autos
              "multiline-column-numbered", "revert-all-at-newline", "echo-control-characters", "enable-bracketed-paste"]
 
 
+# variables that change what the typed bytes MEAN (handled by the drivers that care) or that are not options of the editor
+_NOT_RANDOM = {"convert-meta", "input-meta", "output-meta", "meta-flag", "enable-meta-key", "byte-oriented"}
+OTHER_SETTINGS = [("completion-query-items", ["0", "1", "3"]), ("completion-prefix-display-length", ["1", "3"]), ("completion-display-width", ["0", "10", "40"]),
+                  ("history-size", ["1", "3"]), ("multiline-column-custom", ["| ", ">>"]), ("comment-begin", ["//", "x"]), ("bell-style", ["none", "visible"]),
+                  ("vi-cmd-mode-string", ["C", "\\1\\e[1m\\2cmd"]), ("vi-ins-mode-string", ["I"]), ("emacs-mode-string", ["E "]),
+                  ("completion-list-separator", [":", ""]), ("keyseq-timeout", ["0", "50"])]
+
+
+def all_bool_vars():
+    """every boolean variable the library under test knows, with its default (dumped from the running code)"""
+    return {k: v for k, v in default_binds()["vars"].items() if isinstance(v, bool) and k not in _NOT_RANDOM}
+
+
+def option_lines(rng, p=0.12, skip=()):
+    """a random option set: every boolean variable flipped with probability p, some of the other settings"""
+    lines = []
+    for v, dflt in sorted(all_bool_vars().items()):
+        if v not in skip and rng.random() < p:
+            lines.append("set %s %s" % (v, "off" if dflt else "on"))
+    for v, vals in OTHER_SETTINGS:
+        if v not in skip and rng.random() < p / 2:
+            lines.append("set %s %s" % (v, rng.choice(vals)))
+    return lines
+
+
 def random_inputrc(rng, mode, p=0.12):
     lines = []
     if mode == "vi":
         lines.append("set editing-mode vi")
-    for v in BOOL_VARS:
-        if rng.random() < p:
-            lines.append("set %s on" % v)
+    lines += option_lines(rng, p)
     if rng.random() < 0.2:
         lines.append("set convert-meta off")
         if rng.random() < 0.5:
